@@ -829,3 +829,194 @@ def r15_no_float_on_weights(ctx):
 
 
 RULES += [r15_no_float_on_weights]
+
+
+def r16_unrepresentable_term_not_dropped(ctx):
+    ctx.rule("C03.r16", "zones / octagons turn a linear expression into difference constraints term by term; a term whose coefficient or bound "
+             "cannot be converted to the weight type (overflow flag of ntow::convert) must make the extraction give up - skipping it "
+             "(`continue`) treats the term as 0: assume(y + 2^70*z <= 0) gives y <= 0 and x := y + 2^70*z gives x = y", floor=5)
+    files = ("include/crab/domains/split_dbm.hpp", "include/crab/domains/sparse_dbm.hpp", "include/crab/domains/split_oct.hpp")
+    n = 0
+    seen = set()
+    for f in files:
+        for fn in ctx.db.fns(f):
+            if not fn.get("body") or not (fn["name"].startswith("diffcsts_of") or fn["name"].startswith("oct_csts_of")) or (f, fn["line"]) in seen:
+                continue
+            seen.add((f, fn["line"]))
+            body = fn["body"]
+            g = paths.guards(body)
+            decls = local_decls(body)
+            flags = {d["id"] for d in decls.values() if d.get("n") in ("overflow", "underflow")}
+            conts = [x for x in walk(body, into_lambdas=False) if x.get("k") == "continue"]
+            bad = None
+            for c in conts:
+                for cond, pol in g.get(id(c), ()):
+                    if isinstance(cond, tuple):
+                        continue
+                    if pol and any(isinstance(y, dict) and y.get("k") == "ref" and y.get("id") in flags for y in walk(cond)):
+                        bad = c
+            n += 1
+            if bad is not None:
+                ctx.bad("%s::%s skips a term of the expression when its coefficient / bound overflows the weight type: the term is treated as "
+                        "0 and the extracted difference constraints are wrong (assume(y + 2^70*z <= 0) gives y <= 0 although y = 5, z = -1 "
+                        "satisfies it)" % ((fn.get("cpk") or "").split("::")[-1], fn["name"]), fn, bad,
+                        sig="term-dropped-on-overflow:%s:%s" % ((fn.get("cpk") or "").split("::")[-1], fn["name"]))
+            else:
+                ctx.ok("%s::%s never skips a term on overflow" % ((fn.get("cpk") or "").split("::")[-1], fn["name"]), fn, body)
+    if n == 0:
+        ctx.fail("rule C03.r16: diffcsts_of_* not found")
+
+
+RULES += [r16_unrepresentable_term_not_dropped]
+
+
+def r17_merged_partition_reexamined(ctx):
+    from ..match import cmp_parts, strip_move
+    ctx.rule("C03.r17", "value partitioning: the pass that merges overlapping partitions (sorted by lower bound) compares a partition "
+             "that has just absorbed its successor AGAIN with its new successor - the absorbed one may be shorter than the absorbing one "
+             "([0,10], [2,3], [5,6]); iterator positions are interpreted symbolically along the merge branch up to the next test", floor=1)
+    VP = "include/crab/domains/value_partitioning_domain.hpp"
+    fs = [f for f in ctx.db.fns(VP, name="update_partitions") if f.get("body")]
+    if not ctx.need(fs, "value_partitioning_domain::update_partitions"):
+        return
+    fn = fs[0]
+    body = fn["body"]
+    loops = [l for l in walk(body) if l.get("k") in ("for", "while") and any(is_call(c, name="erase") for c in walk(l.get("b")))
+             and any(is_call(c, name="join_interval") for c in walk(l.get("b")))]
+    if not loops:
+        ctx.fail("rule C03.r17: merge loop of update_partitions not found")
+        return
+    loop = loops[-1]
+    lb = loop.get("b")
+    stmts = lb.get("b", []) if lb.get("k") == "seq" else [lb]
+    test = [s for s in stmts if s.get("k") == "if" and any(is_call(c, name="ub") for c in walk(s.get("c"))) and any(is_call(c, name="lb") for c in walk(s.get("c")))]
+    if len(test) != 1:
+        ctx.undecided("update_partitions: the overlap test of the merge loop was not found", fn, loop)
+        return
+    test = test[0]
+    cp = cmp_parts(test.get("c"))
+
+    def it_of(e):
+        for x in walk(e):
+            if isinstance(x, dict) and x.get("k") == "ref" and x.get("rk") == "local":
+                return x.get("id")
+        return None
+    left, right = it_of(cp[1]), it_of(cp[2])       # it->ub() >= next_it->lb()
+    prefix = stmts[:stmts.index(test)]
+    then = test.get("t")
+    then_stmts = then.get("b", []) if isinstance(then, dict) and then.get("k") == "seq" else [then]
+    incr = [loop["n"]] if loop.get("n") is not None else []
+    cond = [loop["c"]] if loop.get("c") is not None else []
+    pos = {left: 0, right: 1}
+
+    class Unknown(Exception):
+        pass
+
+    def val(e):
+        e = strip_move(e)
+        if isinstance(e, dict) and e.get("k") in ("ctor", "construct") and len(e.get("a", [])) == 1:
+            return val(e["a"][0])
+        if isinstance(e, dict) and e.get("k") == "ref" and e.get("id") in pos:
+            return pos[e["id"]]
+        if is_call(e, name="erase") and e.get("a"):
+            return val(e["a"][0])        # the element after the erased one takes its index
+        if isinstance(e, dict) and e.get("k") == "un" and e.get("op") in ("pre++", "pre--", "post++", "post--"):
+            return step(e)
+        raise Unknown(src(e)[:40])
+
+    def step(x):
+        t = strip(x.get("e"))
+        if not (isinstance(t, dict) and t.get("id") in pos):
+            raise Unknown(src(x)[:40])
+        pos[t["id"]] += 1 if "++" in x["op"] else -1
+        return pos[t["id"]]
+
+    def run(s):
+        s = strip(s) if isinstance(s, dict) else s
+        if not isinstance(s, dict):
+            return
+        k = s.get("k")
+        if k == "seq":
+            for y in s.get("b", []):
+                run(y)
+        elif k == "decl":
+            if "i" in s and any(isinstance(y, dict) and y.get("k") == "ref" and y.get("id") in pos for y in walk(s["i"])):
+                try:
+                    pos[s["id"]] = val(s["i"])
+                except Unknown:
+                    pass            # a reference to the element, not an iterator
+            elif s.get("id") in pos:
+                raise Unknown(src(s)[:40])
+        elif k == "asg" and isinstance(strip(s.get("L")), dict) and strip(s["L"]).get("id") in pos:
+            pos[strip(s["L"])["id"]] = val(s.get("R"))
+        elif k == "call" and s.get("op") == "=" and "o" in s and isinstance(strip(s["o"]), dict) and strip(s["o"]).get("id") in pos:
+            pos[strip(s["o"])["id"]] = val(s["a"][0])
+        elif k == "un" and s.get("op") in ("pre++", "pre--", "post++", "post--") and isinstance(strip(s.get("e")), dict) and strip(s["e"]).get("id") in pos:
+            step(s)
+        elif k == "call" and s.get("op") in ("++", "--") and "o" in s and isinstance(strip(s["o"]), dict) and strip(s["o"]).get("id") in pos:
+            pos[strip(s["o"])["id"]] += 1 if s["op"] == "++" else -1
+        elif k == "if":
+            # only guards that do not move the iterators are skipped over (e.g. `if (next_it == end) break;`)
+            if any(isinstance(y, dict) and ((y.get("k") == "un" and "++" in (y.get("op") or "") + "--") or y.get("k") == "asg") and
+                   any(isinstance(z, dict) and z.get("id") in pos for z in walk(y)) for y in walk(s.get("t"))):
+                raise Unknown("conditional iterator movement")
+        else:
+            for y in walk(s):
+                if isinstance(y, dict) and y.get("k") in ("asg",) and isinstance(strip(y.get("L")), dict) and strip(y["L"]).get("id") in pos:
+                    raise Unknown(src(y)[:40])
+    try:
+        for s in then_stmts + incr + prefix:
+            run(s)
+    except Unknown as e:
+        ctx.undecided("update_partitions: cannot follow the iterators through `%s`" % e, fn, loop)
+        return
+    if pos.get(left) == 0 and pos.get(right) == 1:
+        ctx.ok("after a merge the next overlap test compares the merged partition with its new successor", fn, test)
+    else:
+        ctx.bad("value_partitioning_domain::update_partitions: after `it` has absorbed its successor the next overlap test compares positions "
+                "(%s, %s) relative to the merged partition instead of (0, 1): the merged partition is never compared with its new successor, "
+                "[0,10], [2,3], [5,6] ends as [0,10], [5,6] and the partition-wise meet then drops (x=5, y=1)" % (pos.get(left), pos.get(right)),
+                fn, test, sig="merged-partition-not-reexamined")
+
+
+RULES += [r17_merged_partition_reexamined]
+
+
+def r18_touching_partitions_overlap(ctx):
+    ctx.rule("C03.r18", "value partitioning: partition intervals are CLOSED, so two of them overlap when ub(P) >= lb(Q) and are disjoint "
+             "when ub(P) < lb(Q); a test `ub > lb` / `ub <= lb` treats [a,b] and [b,c] as disjoint, leaves both in the list and the "
+             "partition-wise meet then drops the states with x = b that sit in different partitions on the two sides", floor=5)
+    from ..match import cmp_parts
+    VP = "include/crab/domains/value_partitioning_domain.hpp"
+    n = 0
+    seen = set()
+    for fn in ctx.db.fns(VP, cpk="crab::domains::value_partitioning_domain"):
+        body = fn.get("body")
+        if not body or (fn["name"], fn["line"]) in seen:
+            continue
+        seen.add((fn["name"], fn["line"]))
+        for c in walk(body):
+            p = cmp_parts(c) if isinstance(c, dict) and c.get("k") in ("call", "bin") else None
+            if not p:
+                continue
+            op, l, r = p
+            kind = lambda e: "ub" if is_call(e, name="ub") and any(is_call(y, name="get_interval") for y in walk(e)) else \
+                             "lb" if is_call(e, name="lb") and any(is_call(y, name="get_interval") for y in walk(e)) else None
+            kl, kr = kind(l), kind(r)
+            if {kl, kr} != {"ub", "lb"}:
+                continue
+            # normalise to  ub OP lb
+            if kl == "lb":
+                op = {"<": ">", ">": "<", "<=": ">=", ">=": "<=", "==": "==", "!=": "!="}[op]
+            n += 1
+            if op in (">=", "<"):
+                ctx.ok("%s: ub %s lb (closed intervals)" % (fn["name"], op), fn, c)
+            else:
+                ctx.bad("value_partitioning_domain::%s tests `ub %s lb`: touching partitions [a,b], [b,c] count as disjoint, so the join "
+                        "{[0,1],[5,6]} | {[1,5]} keeps [0,5] and [5,6] side by side and J1 & J2 loses (x=5, y=3)" % (fn["name"], op), fn, c,
+                        sig="partition-overlap-strict:%s" % fn["name"])
+    if n == 0:
+        ctx.fail("rule C03.r18: no ub/lb comparison of partition intervals found")
+
+
+RULES += [r18_touching_partitions_overlap]
